@@ -170,8 +170,10 @@ def Act.isEnv : Act → Bool
 
 /-- `runner.RunTask(nil, closure)`: a new loop worker starts at its first load -/
 def spawnWorker (s : S) : S :=
-  if s.wpc = .idle then { s with wpc := .load, trigNum := 0, negNum := 0 }
-  else { s with clash := s.clash + 1 }
+  { s with wpc := if s.wpc = .idle then .load else s.wpc,
+           trigNum := if s.wpc = .idle then 0 else s.trigNum,
+           negNum := if s.wpc = .idle then 0 else s.negNum,
+           clash := if s.wpc = .idle then s.clash else s.clash + 1 }
 
 def setAdder (s : S) (i : Nat) (a : Adder) : S := { s with adders := s.adders.set i a }
 
@@ -221,8 +223,7 @@ def stepAdder (s : S) (i : Nat) : Option S :=
 
 /-- bookkeeping after `deal` returns: `negNum--`, then either the batched subtraction or the next entry -/
 def endDeal (s : S) : S :=
-  if s.trigNum + (s.negNum - 1) = 0 then { s with negNum := s.negNum - 1, wpc := .sub }
-  else { s with negNum := s.negNum - 1, wpc := .rd }
+  { s with negNum := s.negNum - 1, wpc := if s.trigNum + (s.negNum - 1) = 0 then .sub else .rd }
 
 def stepWorker (s : S) (isNil err : Bool) : Option S :=
   match s.wpc with
